@@ -12,7 +12,17 @@ type certTok struct {
 	cn     Value  // StrV
 	serial *Term
 	fields map[string]Value
+	// authentication model (C09)
+	issuerCN   Value
+	key        int   // identity of the certified public key
+	signer     int   // identity of the key that signed the certificate
+	validNow   *Term // within its validity window at verification time
+	clientAuth *Term // carries the client-auth extended key usage
+	der        bool  // raw DER (not PEM-wrapped)
+	isCA       bool
 }
+
+type certPool struct{ roots []*certTok }
 
 var certTagType = types.NewNamed(types.NewTypeName(0, nil, "symgo.cert", nil), types.NewStruct(nil, nil), nil)
 
@@ -58,6 +68,70 @@ func init() {
 	reg("verif_CertPEM", func(p *Path, fn *ssa.Function, a []Value) Value {
 		return certSlice(&certTok{kind: "cert", cn: a[0], serial: p.big(a[1])})
 	})
+	reg("verif_CertDER", func(p *Path, fn *ssa.Function, a []Value) Value {
+		return certSlice(&certTok{kind: "cert", der: true, cn: a[0], issuerCN: a[1], serial: p.big(a[2]),
+			key: p.concreteInt(a[3], "key"), signer: p.concreteInt(a[4], "signer"), validNow: a[5].(*Term), clientAuth: a[6].(*Term)})
+	})
+	reg("verif_DERToPEM", func(p *Path, fn *ssa.Function, a []Value) Value { return a[0] })
+	reg("crypto/x509.NewCertPool", func(p *Path, fn *ssa.Function, a []Value) Value {
+		return PtrV{c: p.newCell(OpaqueV{kind: "certpool", data: &certPool{}}, nil)}
+	})
+	certOf := func(p *Path, v Value) *certTok {
+		ct := p.namedType("crypto/x509", "Certificate")
+		pv := v.(PtrV)
+		if pv.c == nil {
+			p.throwRuntime("nil *x509.Certificate")
+		}
+		raw := pv.load().(StructV).f[structField(ct, "Raw")]
+		tok := tokOf(raw)
+		if tok == nil {
+			p.unsup("x509.Certificate that did not come from the certificate model")
+		}
+		return tok
+	}
+	reg("(*crypto/x509.CertPool).AddCert", func(p *Path, fn *ssa.Function, a []Value) Value {
+		pool := a[0].(PtrV).load().(OpaqueV).data.(*certPool)
+		pool.roots = append(pool.roots, certOf(p, a[1]))
+		return nil
+	})
+	// Verify contract: the certificate chains to a root iff it IS a root or a CA root's key signed it;
+	// it must be inside its validity window and carry every requested extended key usage
+	reg("(*crypto/x509.Certificate).Verify", func(p *Path, fn *ssa.Function, a []Value) Value {
+		tok := certOf(p, a[0])
+		ot := p.namedType("crypto/x509", "VerifyOptions")
+		opts := a[1].(StructV)
+		roots := opts.f[structField(ot, "Roots")].(PtrV)
+		usages := opts.f[structField(ot, "KeyUsages")].(SliceV)
+		fail := func(msg string) Value { return TupleV{SliceV{isNil: true}, p.newError("x509: "+msg, nil)} }
+		if roots.c == nil {
+			return fail("certificate signed by unknown authority (system roots are not modelled)")
+		}
+		pool := roots.load().(OpaqueV).data.(*certPool)
+		chained := false
+		for _, r := range pool.roots {
+			// Go's verifier accepts a certificate that IS one of the roots (identical bytes); a root
+			// can vouch for another certificate only if it is a CA, which account certificates are not
+			if r == tok || (r.isCA && r.key == tok.signer) {
+				chained = true
+			}
+		}
+		if !chained {
+			return fail("certificate signed by unknown authority")
+		}
+		if tok.validNow != nil && !p.decide(tok.validNow) {
+			return fail("certificate has expired or is not yet valid")
+		}
+		wantClient := false
+		for _, u := range usages.elems() {
+			if t := u.(*Term); t.cst && t.ival.Int64() == 2 { // x509.ExtKeyUsageClientAuth
+				wantClient = true
+			}
+		}
+		if wantClient && tok.clientAuth != nil && !p.decide(tok.clientAuth) {
+			return fail("certificate specifies an incompatible key usage")
+		}
+		return TupleV{SliceV{isNil: true}, IfaceV{}}
+	})
 	reg("verif_PubPEM", func(p *Path, fn *ssa.Function, a []Value) Value { return certSlice(&certTok{kind: "pub"}) })
 	reg("encoding/pem.Decode", func(p *Path, fn *ssa.Function, a []Value) Value {
 		tok := tokOf(a[0])
@@ -90,7 +164,13 @@ func init() {
 		sf := append([]Value{}, subj.f...)
 		sf[structField(nt, "CommonName")] = tok.cn
 		f[structField(ct, "Subject")] = StructV{sf}
-		f[structField(ct, "Issuer")] = StructV{sf}
+		isf := append([]Value{}, subj.f...)
+		if tok.issuerCN != nil {
+			isf[structField(nt, "CommonName")] = tok.issuerCN
+		} else {
+			isf[structField(nt, "CommonName")] = tok.cn
+		}
+		f[structField(ct, "Issuer")] = StructV{isf}
 		f[structField(ct, "Raw")] = a[0]
 		for k, v := range tok.fields {
 			f[structField(ct, k)] = v
